@@ -340,8 +340,8 @@ def _tomtom(Q, T, Q_lens, T_lens, Q_norm, T_norm, rr_inv, rr_counts, n_nearest,
 			T_norm, rr_counts, Q_offsets[i], nq, n_score_bins)
 
 		if offset > n_cache:
-			print("Offset is larger than `n_cache`. Please increase `n_cache`"
-				" to at least ", offset)
+			raise ValueError("Offset is larger than `n_cache`. Please " +
+				"increase `n_cache`.")
 
 		_p_value_backgrounds(_f[pid], _A[pid], _B[pid], _A_csum[pid], nq, 
 			n_score_bins, T_max, offset)
